@@ -256,7 +256,7 @@ def run(tier: str, seed: int) -> Report:
     pool = ThreadPoolExecutor(max_workers=2)
     jobs = {"MC_VEcu_default": pool.submit(tlc.run_tlc, "MC_VEcu", "MC_VEcu_default.cfg", coverage=False, timeout=900,
                                            workers=2, parse_prints=False),
-            "MC_VEcu_a2neg": pool.submit(tlc.run_tlc, "MC_VEcu", "MC_VEcu_a2neg.cfg", timeout=900, workers=2,
+            "MC_VEcu_a2neg": pool.submit(tlc.run_tlc, "MC_VEcu", "MC_VEcu_a2neg.cfg", timeout=900, workers=1,
                                          parse_prints=False)}
     corpus = E.Corpus()
     info: dict[str, Any] = {}
